@@ -939,8 +939,9 @@ def c06_cases(tier, seed):
         for i in range(nk):
             keys += ["abcdefghijklmnopqrstuvwxyz"[i % 26], "0123456789"[(i // 26) % 10], "C-w"]
         keys += ["C-y"] + ["M-y"] * rng.choice([1, 2, 5, nk - 60 if nk > 60 else 3, 59, 60, 61, 64])
-        if rng.random() < 0.5:
-            keys += ["z", "z", "C-w", "C-y", "M-y", "M-y"]
+        if rng.random() < 0.6:
+            # a kill after the pointer has been rotated in a full ring: it replaces the OLDEST kill; then all the way round
+            keys += ["z", "z", "C-w", "C-y"] + ["M-y"] * rng.choice([2, 2, 59, 60, 61, 62])
         keys.append("Enter")
         cases.append(Case(keys, mode="emacs", timeout=rng.choice(["none", 0]), prompt="> "))
     return cases
